@@ -29,6 +29,32 @@ CHECKS = {
             {"harnesses": [H + "ZZH2Parse"], "flags": VLQ_REDIRECT, "quick": GEN_ATOMS_Q, "thorough": GEN_ATOMS_T},
         ],
     },
+    "C04": {
+        "assumptions": GEN_ASSUME + SCRIPT_ASSUME + [
+            "interceptor configurations: {1 statement}, {1 expression}, {1 token}, {2,2,2}, {3,3,1}, {1,2,0 installed through Install}; the wrapper code is uniform in chain length, 8 is not reached",
+            "re-entrant interceptor: ParseRemainingExpression(ParsePrefixExpression()) with 0..1 pass-through interceptors before and after",
+            "token interceptors at byte level: whole inputs of <= K arbitrary bytes, first 'steps' tokens, 1..2 pass-through interceptors",
+        ],
+        "runs": [
+            {"harnesses": [H + "ZZH4aTransparent"], "flags": VLQ_REDIRECT, "quick": dict(GEN_Q, stmts=1), "thorough": GEN_Q},
+            {"harnesses": [H + "ZZH4aTransparent"], "flags": VLQ_REDIRECT, "quick": {"malformed": 1, "T": 1}, "thorough": {"malformed": 1, "T": 2}},
+            {"harnesses": [H + "ZZH4bCurrentToken"], "flags": VLQ_REDIRECT, "quick": GEN_Q, "thorough": GEN_T},
+            {"harnesses": [H + "ZZH4cReentrant"], "flags": VLQ_REDIRECT, "quick": dict(GEN_Q, stmts=1), "thorough": GEN_T},
+            {"harnesses": [LX + "ZZH4dTokenInterceptors"], "quick": {"K": 4, "steps": 2}, "thorough": {"K": 5, "steps": 3}},
+        ],
+    },
+    "C05": {
+        "assumptions": [
+            "flat expressions `[pre] a o1 a o2 a [o3 a]` with 2 (quick) / 2..3 (thorough) operators, each a built-in binary operator (one solver variable over all 13), registered infix operator 1 or 2 (levels solver-quantified over 2..13), or a registered postfix operator; optional registered prefix operator in front",
+            "reference: precedence climbing with the ECMAScript levels plus {registered -> its level}, left-associative; postfix at call level; prefix operand at unary level",
+            "level 1 (LOWEST, the parser's documented sentinel below every operator) is outside the claim",
+            "token types: <= 'regs' RegisterTokenType calls with names of 1..2 arbitrary bytes; operator registrations: <= 'regs' calls with role chosen by forking and token type solver-quantified over all built-in types and two dynamic ids",
+        ],
+        "runs": [
+            {"harnesses": [H + "ZZH5aGrouping"], "quick": {"ops": 2}, "thorough": {"ops": 3}},
+            {"harnesses": [H + "ZZH5bTokenTypes", H + "ZZH5cDuplicates"], "quick": {"regs": 3}, "thorough": {"regs": 4}},
+        ],
+    },
     "C11": {
         "assumptions": SCRIPT_ASSUME,
         "runs": [
@@ -107,6 +133,14 @@ META = {
     "C02": {
         "text": "Bounded symbolic model checking of the real parser on every generated subset program within the node budget: the program is unparsed to a token script in which operator identities (per precedence class), all permitted line breaks and all positions are solver variables, parsed by the real parser, and the resulting tree must equal the generated tree (ECMAScript precedence, associativity, ASI boundaries, restricted productions) on every feasible path.",
         "design_ref": "DESIGN.md §7 C02", "note": _TRUST,
+    },
+    "C04": {
+        "text": "Bounded symbolic model checking of the interceptor chains: on every generated program and on arbitrary malformed token buffers, parsing with pass-through statement/expression/token interceptors (six configurations, direct and via Install) gives the same tree, errors and compact output as without; interceptors run once per step in installation order on one current token, which is the first token of the construct next() returns; a re-entrant expression interceptor obtains the generated (default) tree at every nesting depth with operators solver-quantified; byte-level token interceptors run once per token on the lexeme's first byte.",
+        "design_ref": "DESIGN.md §7 C04", "note": _TRUST,
+    },
+    "C05": {
+        "text": "Bounded symbolic model checking of operator and token-type registration: the level of each registered infix operator is a solver variable (2..13) and its built-in neighbours are one solver variable over all 13 binary operators; the parsed tree must equal an independent precedence-climbing reference. Token-type ids and duplicate refusal are decided over symbolic names/types for all registration histories within the bound.",
+        "design_ref": "DESIGN.md §7 C05", "note": _TRUST,
     },
     "C11": {
         "text": "Bounded symbolic model checking of ParseProgram on arbitrary token buffers (27 parser contexts x <= 2/3 tokens of solver-quantified type, flags and positions) in all four mode combinations (modes are solver variables): termination within the instruction budget, no panic, error value iff error list non-empty, no nil or typed-nil entries in statement lists, every error range is a token range, and error-free trees have all mandatory children and compile in four configurations without panicking.",
